@@ -3,7 +3,7 @@
 # usage: build.sh [race]   -> prints the path of the harness binary on stdout
 set -e
 export GOFLAGS=-mod=mod GOPROXY=off GOSUMDB=off GOTOOLCHAIN=local GODEBUG=goindex=0
-V=/verif
+V=${VERIF_DIR:-/verif}
 REPO=${VERIF_REPO:-/repo}
 B=$V/build
 mkdir -p $B/bin $B/inst
